@@ -262,13 +262,27 @@ def coq_str_list(l):
     return "[" + "; ".join(f'"{x}"' for x in l) + "]"
 
 
+def direct_reducer_refs(fn: ast.FunctionDef):
+    """reducers a dispatcher picks by attribute (ScalarFuncs.<name>) instead of by its name string"""
+    names = set()
+    for n in ast.walk(fn):
+        if isinstance(n, ast.Attribute) and isinstance(n.value, ast.Name) and n.value.id == "ScalarFuncs":
+            names.add(n.attr)
+    return sorted(names)
+
+
 def gen_tables(trees):
     kern = []
     counters = []
     wsets = []
+    direct = []
     for modname, tree in trees.items():
         fns = [n for n in ast.walk(tree) if isinstance(n, ast.FunctionDef)]
         for fn in fns:
+            if modname == "numba":
+                d = direct_reducer_refs(fn)
+                if d:
+                    direct.append((fn.name, d))
             if modname == "numba" and (fn.name.startswith("group_") or fn.name.startswith("cum") or fn.name.startswith("rolling_")):
                 names = str_consts_passed_as_reducer(fn)
                 if names:
@@ -280,6 +294,8 @@ def gen_tables(trees):
                 wsets.append((f"{modname}.{fn.name}", w, f, p))
     out = ["From Coq Require Import List String.", "Import ListNotations.", "Open Scope string_scope.", ""]
     out.append("Definition gen_kernel_reducers : list (string * list string) :=\n  [" + ";\n   ".join(f'("{k}", {coq_str_list(v)})' for k, v in sorted(kern)) + "].\n")
+    out.append("(* dispatcher, reducers it selects by attribute rather than by name *)")
+    out.append("Definition gen_direct_reducers : list (string * list string) :=\n  [" + ";\n   ".join(f'("{k}", {coq_str_list(v)})' for k, v in sorted(direct)) + "].\n")
     out.append("Definition gen_counter_dtypes : list (string * string * string) :=\n  [" + ";\n   ".join(f'("{a}", "{b}", "{c}")' for a, b, c in sorted(counters)) + "].\n")
     out.append("(* kernel, names written through a subscript, names bound to fresh allocations, parameters *)")
     out.append("Definition gen_write_sets : list (string * list string * list string * list string) :=\n  [" + ";\n   ".join(
